@@ -278,7 +278,9 @@ package corerad
 //@   at call sendWorker(sa, sc, sip): assert B1 [C08]: ghost.began
 //@   ghost local swerr Iface
 //@   at call sendWorker(sa2, sc2, sip2) (se): ghost.swerr = se
-//@   at send errC(ev): assert F1 [C10]: ev != nil && ev == ghost.swerr
+//@   ghost local esent Bool
+//@   at send errC(ev): assert F1 [C10]: ev != nil && ev == ghost.swerr ; ghost.esent = true
+//@   ensures F2 [C10]: ghost.swerr != nil ==> ghost.esent || isDone(ctx)
 //@   at call sync.Done(wg): assert D1 [C08]: ghost.began && wg == addr(workerWG) ; ghost.running = ghost.running - 1
 //@   opt safety [C10]
 //@ func (*Advertiser).schedule$4
@@ -291,7 +293,9 @@ package corerad
 //@   at call sendWorker(sa, sc, sip): assert B1 [C08]: ghost.began
 //@   ghost local swerr Iface
 //@   at call sendWorker(sa2, sc2, sip2) (se): ghost.swerr = se
-//@   at send errC(ev): assert F1 [C10]: ev != nil && ev == ghost.swerr
+//@   ghost local esent Bool
+//@   at send errC(ev): assert F1 [C10]: ev != nil && ev == ghost.swerr ; ghost.esent = true
+//@   ensures F2 [C10]: ghost.swerr != nil ==> ghost.esent || isDone(ctx)
 //@   at call sync.Done(wg): assert D1 [C08]: ghost.began && wg == addr(workerWG) ; ghost.running = ghost.running - 1
 //@   opt safety [C10]
 
